@@ -324,7 +324,9 @@ func runC19Lib(t *testing.T, c simrt.Chooser, o Opts) *Out {
 		if last.failed {
 			bound = end + 2*interval
 		}
-		if (last.closed || last.failed) && bound < cancelAt {
+		// the generator can only see the end of a pass after the consumer has taken its last request
+		consumed := last.failed || pi > n-1 || (pi == n-1 && pos == len(last.order))
+		if (last.closed || last.failed) && consumed && bound < cancelAt {
 			what := "ended"
 			if last.failed {
 				what = "failed to start"
